@@ -49,7 +49,7 @@ def run_property(prop, tier):
     if tier == "thorough" and not os.environ.get("VERIF_FACTS_DIR"):
         # the same analysis over the other build configurations of the workspace (cargo features change which code exists:
         # checked goto arithmetic in the interpreter, human-readable output in the compiler ...)
-        configs = getattr(mod, "THOROUGH_CONFIGS", ["bytecode_debug", "output_hr"])
+        configs = getattr(mod, "THOROUGH_CONFIGS", ["bytecode_debug", "output_hr", "nil_eq"])
         rep.extra["configurations"] = ["default"] + list(configs)
         for cfg in configs:
             r2 = Report(prop, tier)
